@@ -30,6 +30,7 @@ import (
 	"github.com/ipfs/go-unixfsnode"
 	"github.com/ipfs/go-unixfsnode/data/builder"
 	quickbuilder "github.com/ipfs/go-unixfsnode/data/builder/quick"
+	dagpb "github.com/ipld/go-codec-dagpb"
 	"github.com/ipld/go-ipld-prime"
 	"github.com/ipld/go-ipld-prime/datamodel"
 	basicnode "github.com/ipld/go-ipld-prime/node/basicnode"
@@ -1390,6 +1391,22 @@ func veryLargeLinkWidths(t *testing.T) {
 			t.Fatalf("C01: link width %d, %d chunks: AsBytes returned %d bytes (err %v), want %d; first difference at %d", c.w, c.chunks, len(b), err, len(data), firstDiff(b, data))
 		}
 		rs, _ := rn.(datamodel.LargeBytesNode).AsLargeBytes()
+		// a reader that has delivered some bytes and is then moved relative to the end
+		if len(data) > 20 {
+			head := make([]byte, 5)
+			if _, err := io.ReadFull(rs, head); err != nil || !bytes.Equal(head, data[:5]) {
+				t.Fatalf("C04: link width %d, %d chunks: first bytes %x, %v", c.w, c.chunks, head, err)
+			}
+			if end, err := rs.Seek(0, io.SeekEnd); err != nil || end != int64(len(data)) {
+				t.Fatalf("C04: link width %d, %d chunks: after reading 5 bytes, Seek(0, End) = %d, %v; the file has %d bytes", c.w, c.chunks, end, err, len(data))
+			}
+			if pos, err := rs.Seek(-7, io.SeekEnd); err != nil || pos != int64(len(data))-7 {
+				t.Fatalf("C04: link width %d, %d chunks: Seek(-7, End) = %d, %v", c.w, c.chunks, pos, err)
+			}
+			if tail, err := io.ReadAll(rs); err != nil || !bytes.Equal(tail, data[len(data)-7:]) {
+				t.Fatalf("C04: link width %d, %d chunks: the last 7 bytes read after Seek(-7, End): %x, %v", c.w, c.chunks, tail, err)
+			}
+		}
 		for _, off := range []int64{1, 3, 2*1023 + 1, 2*1024 + 1, 2*4095 + 1, 2 * 4096, 2*4097 + 1, int64(len(data)) - 3} {
 			if off < 0 || off >= int64(len(data)) {
 				continue
@@ -1777,10 +1794,17 @@ func wideNodeWithLongEmptyRun(t *testing.T, prop string) {
 // that give up the processor at every storage call: each goroutine's file must get the link and size it gets alone, and
 // read back with its own length and bytes.
 func concurrentWideBuilds(t *testing.T, prop string) {
-	const G, rounds = 8, 60
+	concurrentWideBuildsAt(t, prop, 300, 16, 3300, 417, 60)
+	// nodes whose UnixFS message alone is several KiB (a thousand block sizes of two bytes each), of different chunk sizes
+	concurrentWideBuildsAt(t, prop, 1000, 130, 78000, 6500, 20)
+}
+
+func concurrentWideBuildsAt(t *testing.T, prop string, width, chunk, baseLen, stepLen, rounds int) {
+	const G = 8
 	old := builder.DefaultLinksPerBlock
-	builder.DefaultLinksPerBlock = 300 // (a package variable: set once before the goroutines start)
+	builder.DefaultLinksPerBlock = width // (a package variable: set once before the goroutines start)
 	defer func() { builder.DefaultLinksPerBlock = old }()
+	chunker := func(g int) string { return fmt.Sprintf("size-%d", chunk+(g%2)*chunk) }
 	type job struct {
 		data []byte
 		want cid.Cid
@@ -1788,8 +1812,8 @@ func concurrentWideBuilds(t *testing.T, prop string) {
 	}
 	jobs := make([]job, G)
 	for g := range jobs {
-		data := lcgBytes(3300+g*417, byte(g+1), 0) // 207 .. 390 chunks of 16 bytes
-		l, sz, err := builder.BuildUnixFSFile(bytes.NewReader(data), "size-16", NewStore().LinkSystem())
+		data := lcgBytes(baseLen+g*stepLen, byte(g+1), 0) // (at 300: 207 .. 390 chunks of 16 bytes)
+		l, sz, err := builder.BuildUnixFSFile(bytes.NewReader(data), chunker(g), NewStore().LinkSystem())
 		if err != nil {
 			t.Fatal(err)
 		}
@@ -1805,9 +1829,9 @@ func concurrentWideBuilds(t *testing.T, prop string) {
 				st := NewStore()
 				st.Yield = true
 				ls := st.LinkSystem()
-				l, sz, err := builder.BuildUnixFSFile(bytes.NewReader(jobs[g].data), "size-16", ls)
+				l, sz, err := builder.BuildUnixFSFile(bytes.NewReader(jobs[g].data), chunker(g), ls)
 				if err != nil || cidOf(l) != jobs[g].want || sz != jobs[g].wsz {
-					errs <- fmt.Sprintf("goroutine %d round %d: file of %d bytes at link width 300 built as %v / %d (err %v), alone as %s / %d", g, r, len(jobs[g].data), l, sz, err, jobs[g].want, jobs[g].wsz)
+					errs <- fmt.Sprintf("goroutine %d round %d: file of %d bytes built as %v / %d (err %v), alone as %s / %d", g, r, len(jobs[g].data), l, sz, err, jobs[g].want, jobs[g].wsz)
 					return
 				}
 				if r%10 == 0 {
@@ -1832,9 +1856,78 @@ func concurrentWideBuilds(t *testing.T, prop string) {
 	wg.Wait()
 	close(errs)
 	for e := range errs {
-		t.Fatalf("%s: %d goroutines building their own files at link width 300 at the same time: %s", prop, G, e)
+		t.Fatalf("%s: %d goroutines building their own files at link width %d at the same time: %s", prop, G, width, e)
 	}
 }
 
 func TestC07_R_ConcurrentWideBuilds(t *testing.T) { concurrentWideBuilds(t, "C07") }
 func TestC01_R_ConcurrentWideBuilds(t *testing.T) { concurrentWideBuilds(t, "C01") }
+
+// C02 / C10: one entry slice handed to several directory builds at the same time (the same listing written at several
+// fanouts, or into several stores): the slice is an input that the builds only read - every build gets the directory it
+// gets alone from a slice of its own.
+func TestC02_R_ConcurrentBuildsFromOneSharedEntrySlice(t *testing.T) {
+	const n = 4000
+	es := make([]entrySpec, n)
+	seen := map[string]bool{}
+	for i := range es {
+		name := fmt.Sprintf("entry-%05d", (i*2654435761)%n) // (not in name order)
+		for seen[name] {
+			name += "'"
+		}
+		seen[name] = true
+		es[i] = entryFor(name, 0)
+	}
+	type job struct {
+		fanout int // 0 = the auto-selecting builder
+		want   cid.Cid
+	}
+	jobs := []job{{fanout: 16}, {fanout: 64}, {fanout: 256}, {fanout: 1024}, {fanout: 0}}
+	build := func(j job, entries []dagpb.PBLink) (cid.Cid, error) {
+		ls := NewStore().LinkSystem()
+		var l datamodel.Link
+		var err error
+		if j.fanout == 0 {
+			l, _, err = builder.BuildUnixFSDirectory(entries, ls)
+		} else {
+			l, _, err = builder.BuildUnixFSShardedDirectory(j.fanout, mh.MURMUR3X64_64, entries, ls)
+		}
+		if err != nil {
+			return cid.Undef, err
+		}
+		return cidOf(l), nil
+	}
+	for i := range jobs {
+		c, err := build(jobs[i], pbEntries(es)) // alone, from a slice of its own
+		if err != nil {
+			t.Fatal(err)
+		}
+		jobs[i].want = c
+	}
+	for round := 0; round < 6; round++ {
+		shared := pbEntries(es)
+		var wg sync.WaitGroup
+		errs := make([]string, len(jobs))
+		for i := range jobs {
+			wg.Add(1)
+			go func(i int) {
+				defer wg.Done()
+				p, _ := safe(func() {
+					c, err := build(jobs[i], shared)
+					if err != nil || c != jobs[i].want {
+						errs[i] = fmt.Sprintf("fanout %d (0 = auto): built %v (err %v), alone %s", jobs[i].fanout, c, err, jobs[i].want)
+					}
+				})
+				if p != nil {
+					errs[i] = fmt.Sprintf("panic: %v", p)
+				}
+			}(i)
+		}
+		wg.Wait()
+		for _, e := range errs {
+			if e != "" {
+				t.Fatalf("C02: %d directory builds from one shared slice of %d entries at the same time (round %d): %s", len(jobs), n, round, e)
+			}
+		}
+	}
+}
